@@ -112,7 +112,7 @@ macro_rules! ins {
     };
 }
 ins!(c26_o2_t_ins_123, [1u8, 2, 3]);
-ins!(c26_o2_q_ins_22, [2u8, 2]);
+ins!(c26_o2_t_ins_22, [2u8, 2]);
 ins!(c26_o2_t_ins_1223, [1u8, 2, 2, 3]);
 
 // ------------------------------------------------------------------ O3: varint
@@ -272,7 +272,7 @@ fn delete_equal_keys(p_old: u64, p_new: u64, delete_new: bool) {
 #[kani::unwind(8)]
 #[kani::stub(Pager::read_page, stub_read_page)]
 #[kani::stub(Pager::write_page, stub_write_page)]
-fn c26_o5_q_delete_equal_keys_increasing_payloads() {
+fn c26_o5_t_delete_equal_keys_increasing_payloads() {
     delete_equal_keys(10, 20, kani::any());
 }
 
@@ -312,7 +312,7 @@ fn c26_o5_a_delete_equal_keys_decreasing_payloads_symbolic() {
 #[kani::unwind(8)]
 #[kani::stub(Pager::read_page, stub_read_page)]
 #[kani::stub(Pager::write_page, stub_write_page)]
-fn c26_o5_q_delete_distinct_keys() {
+fn c26_o5_t_delete_distinct_keys() {
     let mut buf = [0u8; PAGE_SIZE];
     leaf_with(&mut buf, &[1u8, 2, 3]);
     unsafe {
